@@ -1016,7 +1016,8 @@ def bit_length(I, x):
         if ctx.entails(z3.And(t > -(2 ** K), t < 2 ** K), ms=4000):
             a = z3.If(t < 0, -t, t)
             # already pinned by the path condition?
-            ctx.solver.set("timeout", ctx.feas_ms)
+            from .ctx import _budget
+            _budget(ctx.solver, ctx.feas_ms)
             if ctx.solver.check() == z3.sat:
                 mv = ctx.solver.model().eval(t, model_completion=True)
                 if z3.is_int_value(mv):
